@@ -701,8 +701,11 @@ func (s Emitter) WriteExpression(output io.Writer, expression cypher.Expression)
 		}
 
 	case *cypher.FunctionInvocation:
-		if _, err := io.WriteString(output, strings.Join(typedExpression.Namespace, ".")); err != nil {
-			return err
+		// Every namespace component is followed by the separator: ns.fn(), a.b.fn()
+		for _, namespaceComponent := range typedExpression.Namespace {
+			if _, err := io.WriteString(output, namespaceComponent+"."); err != nil {
+				return err
+			}
 		}
 
 		if _, err := io.WriteString(output, typedExpression.Name); err != nil {
